@@ -102,6 +102,16 @@ func init() {
 				} else {
 					f.pkg = "example.com/m/out/p" + name[4:]
 					f.out = "out/p" + name[4:] + "/" + name + ".go"
+					switch si % 4 {
+					case 1:
+						// packages that differ only in a trailing major-version element
+						f.pkg = fmt.Sprintf("example.com/m/out/api/v%d", i+2)
+						f.out = fmt.Sprintf("out/api/v%d/%s.go", i+2, name)
+					case 2:
+						// … or that end in an element other packages have in the middle
+						f.pkg = "example.com/m/out" + strings.Repeat("/gen", i+1) + "/p" + name[4:]
+						f.out = "out" + strings.Repeat("/gen", i+1) + "/p" + name[4:] + "/" + name + ".go"
+					}
 				}
 				props := M{"own" + name[4:]: M{"type": "string", "minLength": 1}, "num": M{"type": "integer", "minimum": i}}
 				f.schema = M{idKw: f.id, "type": "object", "properties": props, "required": []any{"own" + name[4:]},
